@@ -49,6 +49,35 @@ class Check:
     def fail(self, rule, key, where, detail):
         return self.ob(rule, key, False, where, detail)
 
+    def borrow(self, run, dst_rule, floor=1):
+        """Evaluate rules that another property owns as obligations of this property (the clause is shared: e.g. C01's `a multiallelic
+        sample contributes nothing` rests on the genotype classification that C08 decides).  `run()` records obligations under their home
+        rule ids; they are re-labelled `dst_rule` (the home id is kept in the detail).  Rules with known findings must not be borrowed:
+        findings are listed under their home id only."""
+        before = len(self.obs)
+        counts_before = dict(self.rule_counts)
+        run()
+        moved = 0
+        for o in self.obs[before:]:
+            src = o["rule"]
+            if src in ("ANCHOR", "SHAPE") or src == dst_rule:
+                continue
+            o["detail"] = "[rule %s, shared] %s" % (src, o["detail"])
+            o["rule"] = dst_rule
+            o["id"] = "%s/%s" % (dst_rule, o["key"])
+            moved += 1
+        for r in list(self.rule_counts):
+            if r in ("ANCHOR", "SHAPE") or r == dst_rule:
+                continue
+            if self.rule_counts[r] != counts_before.get(r, 0):
+                if r in counts_before:
+                    self.rule_counts[r] = counts_before[r]
+                else:
+                    del self.rule_counts[r]
+        self.rule_counts[dst_rule] = self.rule_counts.get(dst_rule, 0) + moved
+        self.floor(dst_rule, floor)
+        return moved
+
     def floor(self, rule, floor, count=None):
         """fail closed if a rule matched fewer instances than were confirmed by hand"""
         n = self.rule_counts.get(rule, 0) if count is None else count
